@@ -70,7 +70,7 @@ def m1_generate(rep, tier):
 
 
 def collect(rep, pool, tier, seed, perturb, nseeds, maxn=2, rich=False, sim=None, label='', counts=None, types=None,
-            only_twosided=False):
+            only_twosided=False, numinsts=None):
     """Runs MC_Gen, replays vectors, returns list of traces of accepted runs."""
     traces = []
     seen = set()
@@ -93,7 +93,7 @@ def collect(rep, pool, tier, seed, perturb, nseeds, maxn=2, rich=False, sim=None
         rec['_seeds'] = [seed * 1000 + h % 997 + i for i in range(nseeds)]
         return True
     res = engine.tlc_replay(rep, pool, 'MC_Gen', replay_args,
-                            consts=dict(MaxN=maxn, NumInsts={1, 2}, Perturb=perturb, Generate=False,
+                            consts=dict(MaxN=maxn, NumInsts=numinsts or {1, 2}, Perturb=perturb, Generate=False,
                                         TypesUsed=types or {'ha', 'sm', 'hr', 'spa'}, Rich=rich,
                                         **count_sets(maxn, counts)),
                             spec='MSpec', invariants=['ParserOK', 'FamilySound', 'RejectBeforeWrite', 'ExportArgs'],
